@@ -40,6 +40,8 @@ package aggoracle
 //@   requires a != nil && a.l1Client != nil && a.l1Info != nil
 //@   requires targetBlockNum != 0 ==> sampledFinal[targetBlockNum]
 //@   modifies sampledFinal, lastSampled, infoLookupsOK
+// every header request of the oracle asks for the configured finality tag, never for another block (e.g. the latest)
+//@   assert call:HeaderByNumber arg1 == a.blockFinality
 //@   ensures[answered-lookups-counted] (result2 == nil ==> infoLookupsOK == old(infoLookupsOK) + 1) && (result2 != nil ==> infoLookupsOK == old(infoLookupsOK))
 //@   ensures[root-at-or-below-a-finalized-block] result2 == nil ==> result0 == 0 && result1 == latestGerUntil(ite(targetBlockNum != 0, targetBlockNum, lastSampled)) && sampledFinal[ite(targetBlockNum != 0, targetBlockNum, lastSampled)]
 //@   ensures[samples-only-when-no-block-is-pending] targetBlockNum != 0 ==> sampledFinal == old(sampledFinal) && lastSampled == old(lastSampled)
